@@ -36,6 +36,8 @@ def _cases(tier, seed):
         yield {'privacy': k, 'project': 'B'}
     yield {'privacy': 0, 'project': 'two_roots', 'rules': ['HIDDEN:beta']}
     yield {'privacy': 0, 'project': 'two_roots', 'rules': ['HIDDEN:alpha.A', 'PRIVATE:beta']}
+    for k in ((1, 3) if tier == 'quick' else range(4)):
+        yield {'privacy': 0, 'project': 'kitchen', 'options': k}
     yield {'privacy': 0, 'project': 'two_roots', 'rules': ['PRIVATE:gamma._inner.helper', 'PRIVATE:beta.B.m', 'PUBLIC:gamma._inner']}
     yield {'privacy': 0, 'project': 'two_roots', 'rules': ['HIDDEN:gamma.widgets.Sealed', 'PRIVATE:gamma.widgets.P*', 'HIDDEN:gamma._inner']}
     yield {'privacy': 0, 'project': 'B', 'extra': ['--sidebar-expand-depth', '3']}
@@ -73,7 +75,12 @@ TWO_ROOTS = {'alpha.py': '"""Alpha. See L{beta.B}."""\nclass A: pass\n', 'beta.p
 
 
 def check_site(case, which):
-    files = TWO_ROOTS if case.get('project') == 'two_roots' else site.PROJECT_B
+    if case.get('project') == 'kitchen':
+        from replay import kitchen
+        files = kitchen.KITCHEN
+        case = dict(case, **kitchen.OPTION_SETS[case['options']])
+    else:
+        files = TWO_ROOTS if case.get('project') == 'two_roots' else site.PROJECT_B
     privacy = case['rules'] if 'rules' in case else site.PRIVACY_SETS[case['privacy']]
     argv = [f'--privacy={r}' for r in privacy] + list(case.get('extra', []))
     rc, out, d = site.run_project(files, argv)
@@ -211,8 +218,11 @@ def check_site(case, which):
             for page, info in idx['pages'].items():
                 # 'overrides' / 'overridden in' / 'known subclasses' notes list objects: none of them may be hidden
                 for e in info['entries']:
-                    if e.get('first_text', '').startswith('overrides'):
-                        continue      # names the member a visible method overrides: text about the visible method (as for hidden bases)
+                    if e.get('first_text', '').startswith(('overrides', 'Implements interfaces')) or e.get('first_text') == 'from':
+                        # names the member a visible method overrides / the interfaces a visible class declares / the interface a visible
+                        # method takes its docstring from: text about the visible object, as for hidden bases (a hyperlink to the hidden
+                        # object would still be reported below)
+                        continue
                     for t in e.get('codes', []):
                         if t in hidden:
                             fails.append({'observed': f'{page}: a note lists hidden {t}', 'required': 'hidden objects are in no listing',
